@@ -381,10 +381,17 @@ pub fn worker<E: Engine>(
                     if let Some(v2) = &rec2.violation {
                         file.detail = v2.detail.clone();
                     }
-                    file.minimised_size = engine.plan_size(&min_plan);
-                    file.shrink_executions = shrink_executions;
-                    file.plan = serde_json::to_value(&min_plan).unwrap_or(Value::Null);
-                    report.violations.push(file);
+                    let mut minimised = file.clone();
+                    minimised.minimised_size = engine.plan_size(&min_plan);
+                    minimised.shrink_executions = shrink_executions;
+                    minimised.plan = serde_json::to_value(&min_plan).unwrap_or(Value::Null);
+                    // the shrinking ran in this (long-lived) process: keep its result only if
+                    // it also stands on its own in a fresh one
+                    if minimised.minimised_size < original_size && class_in_fresh_process(&minimised).as_deref() != Some(class.as_str()) {
+                        report.violations.push(file);
+                    } else {
+                        report.violations.push(minimised);
+                    }
                 } else {
                     // The same Plan does not fail in a fresh process: what this process did
                     // before matters. Keep the history, minimise it, and retire the process.
